@@ -4,6 +4,8 @@ Q=["quick","thorough"];T=["thorough"]
 H=[{"name":"H_witness","tiers":Q,"expect":"violation","bounds":"vacuity witness"}]
 H.append({"name":"H_zip","tiers":Q,"preemptions":1,"bounds":"zip: 3 tree shapes (big file first + small files + nested/empty dirs + symlink; 5 small files; dirs and symlink only), symbolic file contents, 1..3 workers and -1, <=1 preemption, 2 default policies (copy buffer 2 bytes: several writes per file)",
   "param_sets":[{"shape":s,"workers":w,"policy":p,"copybuf":2,"numcpu":3} for s in (0,1,2) for w in (1,2,3,-1) for p in (0,1)]})
+H.append({"name":"H_zip","tiers":Q,"preemptions":0,"novalidate":True,"bounds":"worker count derived from the CPU count (Concurrency -1) on hosts with 1, 2 and 5 CPUs (runtime.NumCPU is an input of the model), and Concurrency 0; 2 tree shapes",
+  "param_sets":[{"shape":s,"workers":w,"policy":0,"copybuf":2,"numcpu":c} for s in (0,3) for (w,c) in ((-1,1),(-1,2),(-1,5),(0,1),(-2,1))]})
 H.append({"name":"H_resume","tiers":Q,"preemptions":1,"novalidate":True,"bounds":"resumable extraction interrupted after each of the first 4 reported entries, 1..2 workers, <=1 preemption, 2 policies",
   "param_sets":[{"shape":s,"workers":w,"k":k,"policy":p,"copybuf":2,"numcpu":3} for s in (0,1) for w in (1,2) for k in (1,2,3,4) for p in (0,1)]})
 H.append({"name":"H_resume","tiers":Q,"preemptions":1,"novalidate":True,"bounds":"tree with a symlink extracted before its target (behind a big file) and a dangling symlink; interrupted after each of the first 3 reported entries, 1..2 workers, <=1 preemption, 2 policies",
